@@ -19,6 +19,13 @@ Case kinds (input["op"]):
   edit     read -> the user assigns into the object -> re-read, vs a fresh object holding the edited contents (py_ok).
   dsderive dataset derivations with vs without prior reads on the source (py_ok).
   seed     seeded simulations under perturbed global RNG states -> KA (KSeed ..); the images / kernels handed over are fingerprinted.
+  share    OverSamplingDataset objects handed to dataset constructors and to apply_over_sampling (explicitly, ONE object to several calls,
+           partially specified, omitted = the signature's default instance) and derivations that keep the over-sampling, on several
+           Imaging / Interferometer datasets -> KShare (machine of Model/C11s.v vs value semantics); each dataset vs a history-free twin.
+  util     the solver / linear-algebra util functions called directly with caller-owned arrays (order, dtype, sign pattern of the solution
+           varied): arguments unchanged, second call and call on private copies give the same bits (py_ok).
+In EVERY stream: structural fingerprints of all caller-owned objects and of every default-argument object of the autoarray package
+(default_singletons); in the graph / reuse / fit streams additionally every value stored in the graph before a read keeps its bytes.
 """
 import sys, types, zlib, itertools, hashlib
 if "pylops" not in sys.modules:          # stand-in (pylops is not installed): lets Interferometer / TransformerDFT be built
@@ -68,7 +75,8 @@ RULE = ("random histories (length <= 26) over Array2D / Grid2D / VectorYX2D / Ke
         "MapperRectangular / MapperValued / SettingsInversion objects plus a fixed corpus of the witness histories of D7-D12, D19 and of the "
         "in-place kernel normalisation; random reads on the five quantity graphs of Model/C11g.v; random read orders (with sweeps) on "
         "inversions, fits, meshes and on inversions sharing parts; user edits; dataset derivations; seeded simulations under perturbed "
-        "RNG states. A case is non-trivial if it contains at least one read after a derivation or a repeated read; distinct = distinct JSON input.")
+        "RNG states; histories of shared / partially specified / omitted OverSamplingDataset arguments over two or more datasets; util solver "
+        "functions on caller-owned arrays; directed inversions whose positive-only warm start has every parameter passive. A case is non-trivial if it contains at least one read after a derivation or a repeated read; distinct = distinct JSON input.")
 EXHAUSTIVE = {}
 TRUSTED = ["hand-written heap/effect model coq/Model/C11.v (tied to /repo by this run: observations, changed names vs effect "
            "summaries and final contents are compared inside Coq)",
@@ -76,6 +84,8 @@ TRUSTED = ["hand-written heap/effect model coq/Model/C11.v (tied to /repo by thi
            "read are compared inside Coq)",
            "harness/c11.py: twin construction (same constructor, same contents, never read), value encoding (integral floats "
            "as integers, others as IEEE-754 bit patterns), fingerprints (crc32 of bytes + shape + dtype)",
+           "hand-written shared-argument machine coq/Model/C11s.v (tied to /repo by the KShare cases: records observed and names whose "
+           "record changed after every step are compared inside Coq)",
            "Python reference semantics of attributes / __dict__ / numpy views (modelled, not verified)"]
 ASSUMPTIONS = ["pylops is absent: a stand-in module (LinearOperator = object) is installed before importing autoarray so that "
                "Interferometer datasets can be built; numba absent",
@@ -167,7 +177,72 @@ def leaves(x, path="", out=None, seen=None, depth=0):
             leaves(d[k], f"{path}.{k}", out, seen, depth + 1)
     return out
 def leaves_changed(before, after):
-    return sorted(k for k in before if k in after and before[k] != after[k])
+    """paths present before and after whose bytes / value differ, plus STRUCTURAL replacements: a leaf (None, scalar, array)
+    that has become an object / list / dict (a `None` field of a caller's argument object that was filled in) or the converse.
+    Paths that only appear (a cached_property stored later) or only disappear (a deleted cache entry) are not changes."""
+    out = [k for k in before if k in after and before[k] != after[k]]
+    gone = [k for k in before if k not in after]
+    if gone:
+        new = [k for k in after if k not in before]
+        under = lambda a, b: b.startswith(a) and b[len(a):len(a) + 1] in (".", "[", "{")
+        out += [k + " (leaf -> object)" for k in gone if any(under(k, n) for n in new)]
+        out += [n + " (object -> leaf)" for n in new if any(under(n, k) for k in gone)]
+    return sorted(out)
+
+_DEFAULTS = []
+def default_singletons():
+    """[(qualified name, object)]: every non-primitive default-argument object of every function / method / property defined in
+    the autoarray package (the shared mutable defaults: SettingsInversion(), Preloads(), OverSamplingDataset(), np.zeros(0) ...)"""
+    if _DEFAULTS: return _DEFAULTS
+    import_aa()
+    prim = (type(None), bool, int, float, complex, str, bytes, type, types.FunctionType)
+    def is_prim(x): return isinstance(x, prim) or (isinstance(x, (tuple, frozenset)) and all(is_prim(y) for y in x))
+    seen = set()
+    def visit(f, name, depth=0):
+        if depth > 4 or f is None: return
+        for attr in ("__func__", "fget", "func", "__wrapped__"):
+            g = getattr(f, attr, None)
+            if g is not None and g is not f and callable(g): visit(g, name, depth + 1)
+        if not isinstance(f, types.FunctionType): return
+        ds = list(f.__defaults__ or ()) + list((f.__kwdefaults__ or {}).values())
+        for d in ds:
+            if is_prim(d) or id(d) in seen: continue
+            seen.add(id(d)); _DEFAULTS.append((name, d))
+    for mn in sorted(m for m in sys.modules if m == "autoarray" or m.startswith("autoarray.")):
+        mod = sys.modules[mn]
+        for n, o in sorted(vars(mod).items(), key=lambda kv: kv[0]):
+            if isinstance(o, type) and getattr(o, "__module__", "") == mn:
+                for n2, m2 in sorted(vars(o).items(), key=lambda kv: kv[0]): visit(m2, f"{mn}.{n}.{n2}")
+            elif getattr(o, "__module__", None) == mn: visit(o, f"{mn}.{n}")
+    return _DEFAULTS
+def singletons_fp():
+    return leaves([d for _, d in default_singletons()], "defaults")
+def singletons_changed(fp):
+    ch = leaves_changed(fp, singletons_fp())
+    names = default_singletons()
+    out = []
+    for c in ch:
+        try: k = int(c[len("defaults["):c.index("]")]); out.append(names[k][0] + " default" + c[c.index("]") + 1:])
+        except Exception: out.append(c)     # noqa
+    return out
+
+class Watch:
+    """fingerprints of caller-owned objects and of EVERY default-argument singleton of the package; bad() lists what changed"""
+    def __init__(self, owned):
+        self.owned = owned; self.fp = leaves(owned); self.sfp = singletons_fp()
+    def bad(self):
+        out = []
+        ch = leaves_changed(self.fp, leaves(self.owned))
+        if ch: out.append("caller-owned input changed: " + ",".join(ch[:4]))
+        sc = singletons_changed(self.sfp)
+        if sc: out.append("default-argument singleton changed: " + ",".join(sc[:4]))
+        return out
+def stored_changed(before, objs):
+    """objs: the objects of a graph; before: leaves of their instance __dict__s taken before a read.  A value that was stored before
+    the read (a cached_property entry, an attribute, an array reachable from them) must hold the same bytes after it (an entry that
+    is deleted -- curvature_matrix after the in-place `+=` -- disappears, it is not reported)."""
+    return leaves_changed(before, stored(objs))
+def stored(objs): return leaves(list(objs), "obj")
 
 # ----------------------------------------------------------------------------- kinds
 SUB = 2
@@ -419,6 +494,9 @@ class Runner:
                 if s.get("dtype") == "complex":
                     a = np.array(s["v"], dtype=float).reshape(-1, 2); real = (a[:, 0] + 1j * a[:, 1]).reshape(s["shape"])
                 elif s.get("dtype") == "bool": real = np.array(s["v"], dtype=bool).reshape(s["shape"])
+                elif s.get("dtype") == "int": real = np.array(s["v"], dtype=np.int64).reshape(s["shape"])          # integer-typed caller array
+                elif s.get("dtype") == "float32": real = np.array(s["v"], dtype=np.float32).reshape(s["shape"])
+                elif s.get("dtype") == "fortran": real = np.asfortranarray(np.array(s["v"], dtype=float).reshape(s["shape"]))
                 else: real = np.array(s["v"], dtype=float).reshape(s["shape"])
                 self.inputs.append(("nd", real))
             elif s["kind"] == "settings":
@@ -597,7 +675,7 @@ def run_hist0(inp):
     for d in singletons:
         for x in d:
             if hasattr(x, "use_w_tilde"): x.use_w_tilde = True
-    single_before = leaves(singletons)
+    single_before = leaves(singletons); all_single = singletons_fp()
     aux_fp = {}
     notes = []
     for s in steps:
@@ -632,7 +710,7 @@ def run_hist0(inp):
         # cached_property values filled later are new paths (ignored); existing paths must keep their bytes
         bad = leaves_changed(fp, now)
         if bad: aux_bad.append(type(a).__name__ + ":" + ",".join(bad[:3]))
-    single_bad = leaves_changed(single_before, leaves(singletons))
+    single_bad = sorted(set(leaves_changed(single_before, leaves(singletons)) + singletons_changed(all_single)))
     # final snapshot
     fin_in = [r.in_contents(i) for i in range(len(r.inputs))]
     fin_objs = []
@@ -723,6 +801,7 @@ def build_graph(cfg):
         reg = aa.reg.Constant(coefficient=coeff) if coeff is not None else None
         mappers.append(aa.Mapper(mapper_grids=mg, over_sampler=grid.over_sampler, regularization=reg))
     settings = aa.SettingsInversion(use_w_tilde=cfg["w_tilde"], use_positive_only_solver=cfg.get("positive", False),
+                                    positive_only_uses_p_initial=cfg.get("p_initial", True),      # production default, pushed explicitly
                                     no_regularization_add_to_curvature_diag_value=1.0,
                                     force_edge_pixels_to_zeros=cfg.get("force_edge", True),
                                     force_edge_image_pixels_to_zeros=cfg.get("edge_image", False),
@@ -759,7 +838,8 @@ def func_list_cls():
     return _FUNC_CLS[0]
 
 PRELOADABLE = {"curvature_matrix": "curvature_matrix", "curvature_matrix_mapper_diag": "_curvature_matrix_mapper_diag",
-               "regularization_matrix": "regularization_matrix", "operated_mapping_matrix": "operated_mapping_matrix"}
+               "regularization_matrix": "regularization_matrix", "operated_mapping_matrix": "operated_mapping_matrix",
+               "data_vector_mapper": "_data_vector_mapper"}
 def make_inversion(cfg, preload_F=None):
     """cfg["preloads"]: names of aa.Preloads arguments, each filled with a private copy of the quantity computed on a separate
     fresh inversion (the caller's precomputed arrays: they are `owned`, hence fingerprinted)"""
@@ -803,19 +883,19 @@ def run_inv(inp):
     if P is not None: kw["preloads"] = aa.Preloads(curvature_matrix=P)
     if PD is not None: kw["preloads"] = aa.Preloads(curvature_matrix_mapper_diag=PD)
     inv = aa.Inversion(dataset=ds, linear_obj_list=mappers.objs, settings=settings, **kw)
-    owned_fp = leaves(owned)
+    w = Watch(owned)
     out = []
     for q in inp["qs"]:
         if q == "QF": out.append(bits(inv.curvature_matrix))
         elif q == "QFR": out.append(bits(inv.curvature_reg_matrix))
         elif q == "QPre": out.append(bits(P))
         else: out.append(bits(PD))
-    bad = leaves_changed(owned_fp, leaves(owned))
+    bad = w.bad()
     coq = (f"(KInv {pre} {carr(bits(F))} {carr(bits(Hm))} {carr(bits(FR))} {carr(bits(D))} {carr(bits(U))} {clist(inp['qs'])} "
            f"{clist([carr(o) for o in out])})")
     res = {"coq": coq, "out": [zlib.crc32(str(o).encode()) for o in out], "py_ok": None if not bad else False,
            "nontrivial": len(inp["qs"]) >= 2, "kind": "inv:" + type(inv).__name__ + ":" + pre + f":{len(mappers)}mappers"}
-    if bad: res["detail"] = "caller-owned input changed: " + ",".join(bad[:4])
+    if bad: res["detail"] = "; ".join(bad[:4])
     return res
 
 GRAPH_Q = {
@@ -850,27 +930,38 @@ def graph_read(parts, who, name):
     except Exception as e:   # noqa
         return "EXC " + type(e).__name__
 _TWIN_CACHE = {}
+def warm_start_all_passive(inv):
+    """True iff the positive-only solver with an initial guess starts with EVERY parameter in the passive set (the unconstrained
+    solution is strictly positive): computed on a private twin, only used to count how often the state is reached"""
+    try:
+        st = inv.settings
+        if not (st.use_positive_only_solver and st.positive_only_uses_p_initial) or st.force_edge_pixels_to_zeros: return False
+        return bool(np.all(np.linalg.solve(np.array(inv.curvature_reg_matrix), np.array(inv.data_vector)) > 0))
+    except Exception: return False      # noqa
 def run_graph(inp):
     cfg = inp["cfg"]
     key = str(sorted(cfg.items()))
     tw = _TWIN_CACHE.setdefault(key, {})
     inv, ds, mappers, owned = make_inversion(cfg)
     parts = (inv, ds, mappers)
-    from autoarray.inversion.inversion import factory
-    singletons = [factory.inversion_from.__defaults__, factory.inversion_imaging_from.__defaults__]
-    fp0 = leaves([owned, singletons])
+    w = Watch(owned)
+    objs = [inv, ds] + list(mappers.objs)
     bad = []
+    if "warm" not in tw: tw["warm"] = warm_start_all_passive(make_inversion(cfg)[0])
+    tally("graph/reuse/fit cases whose positive-only warm start has every parameter passive", int(tw["warm"]))
     for who, name in inp["reads"]:
         if (who, name) not in tw:
             ti, tds, tm, _ = make_inversion(cfg)
             tw[(who, name)] = graph_read((ti, tds, tm), who, name)
+        before = stored(objs)
         got = graph_read(parts, who, name)
         if got != tw[(who, name)]:
             bad.append(f"{who}.{name} differs from the never-read twin")
-    ch = leaves_changed(fp0, leaves([owned, singletons]))
-    if ch: bad.append("caller-owned input changed: " + ",".join(ch[:4]))
+        ch = stored_changed(before, objs)
+        if ch: bad.append(f"reading {who}.{name} changed a value stored before: " + ",".join(ch[:3]))
+    bad += w.bad()
     res = {"coq": None, "out": {"reads": len(inp["reads"]), "bad": bad[:5]}, "py_ok": not bad, "nontrivial": len(inp["reads"]) >= 3,
-           "kind": "graph:" + type(inv).__name__}
+           "kind": "graph:" + type(inv).__name__ + (":warm-all-passive" if tw["warm"] else "")}
     if bad: res["detail"] = "; ".join(bad[:5])
     return res
 
@@ -900,9 +991,7 @@ def ds_derive(ds, d, owned):
 def ds_play(cfg, pre_reads, derivs, post_reads):
     """builds the dataset, reads [pre_reads] on it, derives, reads [post_reads] on every derived dataset and again on the source"""
     ds, mappers, settings, owned = build_graph(dict(cfg, mappers=[], w_tilde=False))
-    from autoarray.dataset.imaging.dataset import Imaging
-    owned = owned + [Imaging.__init__.__defaults__, Imaging.apply_over_sampling.__defaults__]
-    fp = leaves(owned)
+    w = Watch(owned)
     for q in pre_reads: ds_read(ds, q)
     out = []
     cur = ds
@@ -913,13 +1002,13 @@ def ds_play(cfg, pre_reads, derivs, post_reads):
             out.append(exc_code(e)); break
         for q in post_reads: out.append(ds_read(cur, q))
     for q in post_reads: out.append(ds_read(ds, q))
-    return out, leaves_changed(fp, leaves(owned))
+    return out, w.bad()
 def run_dsderive(inp):
     got, changed = ds_play(inp["cfg"], inp["pre_reads"], inp["derivs"], inp["post_reads"])
     ref, _ = ds_play(inp["cfg"], [], [{k: v for k, v in d.items() if k != "reads_before"} for d in inp["derivs"]], inp["post_reads"])
     bad = [f"observation {i} depends on earlier reads" for i, (a, b) in enumerate(zip(got, ref)) if a != b]
     if len(got) != len(ref): bad.append("different number of observations")
-    if changed: bad.append("caller-owned input changed: " + ",".join(changed[:4]))
+    bad += changed
     res = {"coq": None, "out": {"n": len(got), "bad": bad[:4]}, "py_ok": not bad, "nontrivial": bool(inp["pre_reads"]) and bool(inp["derivs"]),
            "kind": "dsderive:" + "+".join(d["how"] for d in inp["derivs"])}
     if bad: res["detail"] = "; ".join(bad[:4])
@@ -958,7 +1047,7 @@ def build_reuse(inp, only=None):
                 # legitimately serve every inversion that uses the same mappers
                 src = aa.Inversion(dataset=build_graph(cfg_for(d, iv["mappers"]))[0], linear_obj_list=build_graph(cfg_for(d, iv["mappers"]))[1],
                                    settings=aa.SettingsInversion(use_w_tilde=base["w_tilde"], no_regularization_add_to_curvature_diag_value=1.0))
-                arrs = {n: np.array(getattr(src, n)) for n in inp["preload"]}
+                arrs = {n: np.array(getattr(src, PRELOADABLE.get(n, n))) for n in inp["preload"]}
                 pre = aa.Preloads(**arrs); pre._for = list(iv["mappers"])
                 owned += [pre] + list(arrs.values())
             if pre._for == list(iv["mappers"]): kw["preloads"] = pre
@@ -968,16 +1057,20 @@ _REUSE_TWINS = {}
 def run_reuse(inp):
     tw = _REUSE_TWINS.setdefault(str(sorted((k, str(v)) for k, v in inp.items() if k != "reads")), {})
     built, owned = build_reuse(inp)
-    from autoarray.inversion.inversion import factory
-    singletons = [factory.inversion_from.__defaults__, factory.inversion_imaging_from.__defaults__]
-    fp0 = leaves([owned, singletons])
+    w = Watch(owned)
+    objs = [o for b in built for o in [b[0], b[1]] + list(b[2])]
     bad = []
+    if "warm" not in tw: tw["warm"] = [warm_start_all_passive(build_reuse(inp, only=k)[0][0][0]) for k in range(len(inp["invs"]))]
+    tally("graph/reuse/fit cases whose positive-only warm start has every parameter passive", int(any(tw["warm"])))
     for k, who, name in inp["reads"]:
         if (k, who, name) not in tw:
             tb, _ = build_reuse(inp, only=k)
             tw[(k, who, name)] = graph_read(tb[0], who, name)
+        before = stored(objs)
         if graph_read(built[k], who, name) != tw[(k, who, name)]:
             bad.append(f"inversion {k}: {who}.{name} differs from the twin built from unshared parts")
+        ch = stored_changed(before, objs)
+        if ch: bad.append(f"reading {who}.{name} of inversion {k} changed a value stored before: " + ",".join(ch[:3]))
     if inp.get("scaled"):
         # metamorphic oracle that does not go through a twin (a cache shared by ALL objects would serve the twin the same stale
         # value): datasets 0 and 1 hold data d and 2 d with one noise map, inversions 0 and 1 use the same mappers, so the data
@@ -989,8 +1082,7 @@ def run_reuse(inp):
             if not np.array_equal(f0, f1): bad.append("curvature_matrix differs between two datasets with one noise map")
         except Exception as e:   # noqa
             bad.append("scaled pair: " + type(e).__name__)
-    ch = leaves_changed(fp0, leaves([owned, singletons]))
-    if ch: bad.append("caller-owned input changed: " + ",".join(ch[:4]))
+    bad += w.bad()
     shared = "+".join(x for x, c in (("dataset", len({iv["ds"] for iv in inp["invs"]}) < len(inp["invs"])),
                                      ("mapper", len({tuple(iv["mappers"]) for iv in inp["invs"]}) < len(inp["invs"])),
                                      ("preloads", bool(inp.get("preload")))) if c)
@@ -1015,9 +1107,17 @@ def gen_reuse_scenario(rng):
     base = {"shape": [H, W], "holes": [], "w_tilde": rng.random() < 0.4, "positive": False, "sub": 1}
     mk = lambda: {"data": [rng.randint(0, 20) for _ in range(H * W)], "noise": [rng.choice([1, 2, 4]) for _ in range(H * W)]}
     mappers = [[3, 3, rng.choice([1.0, 2.0])], [2, 2, 1.0], [3, 2, 4.0], [2, 3, 4.0]]
-    sc = rng.choice(["two-datasets", "two-mapper-sets", "scaled"])
+    sc = rng.choice(["two-datasets", "two-mapper-sets", "scaled", "same-fit", "same-fit"])
     scaled = False
-    if sc == "two-datasets":
+    if sc == "same-fit":
+        # the same fit repeated (a non-linear search evaluating one model twice) with ONE Preloads object that carries the arrays
+        # of the first evaluation, among them the mapper data vector; positive-only solver from an all-passive warm start
+        c = posall({"shape": [H, W], "mappers": []}, rng)
+        base.update(positive=True, p_initial=True, force_edge=False)
+        datasets = [{"data": c["data"], "noise": c["noise"]}]
+        ms = rng.choice([[0], [0, 1], [2]])
+        invs = [{"ds": 0, "mappers": ms}, {"ds": 0, "mappers": list(ms)}] + ([{"ds": 0, "mappers": list(ms)}] if rng.random() < 0.3 else [])
+    elif sc == "two-datasets":
         datasets = [mk(), mk()]
         if rng.random() < 0.5: datasets[1]["psf"] = [[0.0, 1.0, 0.0], [2.0, 4.0, 1.0], [0.0, 1.0, 1.0]]
         ms = rng.choice([[0], [1], [0, 1], [2]])
@@ -1031,8 +1131,11 @@ def gen_reuse_scenario(rng):
         ms = rng.choice([[0], [0, 1], [2]])
         invs = [{"ds": 0, "mappers": ms}, {"ds": 1, "mappers": list(ms)}]; scaled = True
     pre = rng.choice([None, None, ["regularization_matrix"]]) if sc != "two-mapper-sets" else None
+    if sc == "same-fit":
+        pre = rng.choice([["data_vector_mapper"], ["data_vector_mapper", "regularization_matrix"], ["data_vector_mapper", "curvature_matrix"],
+                          ["operated_mapping_matrix", "data_vector_mapper"]])
     inp = {"op": "reuse", "base": base, "datasets": datasets, "mappers": mappers, "invs": invs, "preload": pre, "scaled": scaled}
-    uni = [[k, "inv", q] for k in (0, 1) for q in REUSE_KEY_Q] + [[k, "mapper0", "mapping_matrix"] for k in (0, 1)]
+    uni = [[k, "inv", q] for k in range(len(invs)) for q in REUSE_KEY_Q] + [[k, "mapper0", "mapping_matrix"] for k in range(len(invs))]
     inp["reads"] = with_sweeps(rng, [rng.choice(uni) for _ in range(rng.randint(0, 3))], uni)
     return inp
 def gen_reuse_random(rng):
@@ -1091,6 +1194,7 @@ def run_edit(inp):
     if kind == "dataset": obj = make_dataset(arr_obj)
     cached = set(KINDS[kind].cached) | {"is_uniform", "amplitudes", "phases", "circular_radius"}
     bad = []
+    sfp = singletons_fp()
     seen = set()
     for q in inp["pre"]:
         edit_read(kind, obj, q); seen.add(q)
@@ -1128,6 +1232,8 @@ def run_edit(inp):
         if got != edit_read(kind, t, q): bad.append(f"{kind}.{q} after an in-place edit is not the quantity of the edited contents")
     if kind != "vis" and not np.array_equal(nd, nd0, equal_nan=True):      # Visibilities(ndarray) stores the caller's array by design
         bad.append("the caller's array changed when the constructed object was edited")
+    sc = singletons_changed(sfp)
+    if sc: bad.append("default-argument singleton changed: " + ",".join(sc[:4]))
     res = {"coq": None, "out": {"bad": bad[:4]}, "py_ok": not bad, "nontrivial": bool(inp["pre"]) and (bool(inp["edits"]) or bool(inp.get("derive"))),
            "kind": "edit:" + kind + (":derived-" + inp["derive"] if inp.get("derive") else "")}
     if bad: res["detail"] = "; ".join(bad[:4])
@@ -1220,21 +1326,27 @@ def run_fit(inp):
     cfg = inp["cfg"]
     tw = _FIT_TWINS.setdefault(str(sorted(cfg.items())), {})
     fit, ds, mappers, owned = build_fit(cfg)
-    fp0 = leaves(owned)
+    w = Watch(owned)
+    objs = [fit, ds] + list(mappers.objs or [])
     bad = []
+    if "warm" not in tw: tw["warm"] = cfg.get("model") is None and warm_start_all_passive(build_fit(cfg)[0].inversion)
+    tally("graph/reuse/fit cases whose positive-only warm start has every parameter passive", int(tw["warm"]))
     for who, name in inp["reads"]:
         if (who, name) not in tw:
             tf, tds, tm, _ = build_fit(cfg)
             tw[(who, name)] = fit_read((tf, tds, tm), who, name)
+        before = stored(objs + ([fit.__dict__["inversion"]] if fit.__dict__.get("inversion") is not None else []))
         if fit_read((fit, ds, mappers), who, name) != tw[(who, name)]: bad.append(f"{who}.{name} differs from the never-read twin")
-    ch = leaves_changed(fp0, leaves(owned))
-    if ch: bad.append("caller-owned input changed: " + ",".join(ch[:4]))
+        ch = leaves_changed(before, stored(objs + ([fit.__dict__["inversion"]] if fit.__dict__.get("inversion") is not None else [])))
+        if ch: bad.append(f"reading {who}.{name} changed a value stored before: " + ",".join(ch[:3]))
+    bad += w.bad()
     res = {"coq": None, "out": {"reads": len(inp["reads"]), "bad": bad[:5]}, "py_ok": not bad, "nontrivial": len(inp["reads"]) >= 3,
            "kind": "fit:" + (type(fit.inversion).__name__ if cfg.get("model") is None else "given-model" + (":masked" if cfg.get("use_mask") else ""))}
     if bad: res["detail"] = "; ".join(bad[:5])
     return res
 def gen_fit(rng):
     cfg = rand_cfg(rng)
+    if rng.random() < 0.3: cfg = posall(cfg, rng)
     cfg["preloads"] = []
     cfg["sky"] = rng.choice([0.0, 0.0, 1.5]); cfg["offset"] = rng.choice([[0.0, 0.0], [0.0, 0.0], [0.5, -0.25]])
     if rng.random() < 0.3:
@@ -1315,7 +1427,7 @@ def run_mesh(inp):
     cfg = inp["cfg"]
     tw = _MESH_TWINS.setdefault(str(sorted(cfg.items())), {})
     parts, owned = build_mesh_graph(cfg)
-    fp0 = leaves(owned)
+    w = Watch(owned)
     bad = []; nexc = 0
     for who, name in inp["reads"]:
         if (who, name) not in tw:
@@ -1324,8 +1436,7 @@ def run_mesh(inp):
         got = mesh_read(parts, who, name, cfg)
         nexc += got.startswith("EXC")
         if got != tw[(who, name)]: bad.append(f"{who}.{name} differs from the never-read twin")
-    ch = leaves_changed(fp0, leaves(owned))
-    if ch: bad.append("caller-owned input changed: " + ",".join(ch[:4]))
+    bad += w.bad()
     tally("mesh reads raising (canonical exception)", nexc); tally("mesh reads", len(inp["reads"]))
     res = {"coq": None, "out": {"reads": len(inp["reads"]), "bad": bad[:5]}, "py_ok": not bad, "nontrivial": len(inp["reads"]) >= 3,
            "kind": "mesh:" + cfg["kind"] + ":" + cfg["reg"]}
@@ -1506,7 +1617,7 @@ def run_gcase(inp):
             tparts, _ = gbuild(inst, cfg)
             tw[n] = gread_node(tparts, node, cfg)
     parts, owned = gbuild(inst, cfg)
-    fp0 = leaves(owned)
+    w = Watch(owned)
     out = []
     for n in inp["reads"]:
         before = gpresent(nodes, parts)
@@ -1515,14 +1626,14 @@ def run_gcase(inp):
         filled = sorted(m for m in after if nodes[m][2] == GC)
         changed = sorted(m for m in before if m in after and leaves_changed(before[m], after[m]))
         out.append((v, filled, changed))
-    ch = leaves_changed(fp0, leaves(owned))
+    ch = w.bad()
     cnl = lambda l: clist([cnat(x) for x in l])
     couts = clist([f"({carr(v)}, {cnl(f)}, {cnl(c)})" for v, f, c in out])
     coq = f"(KGraph {cnat(inst)} {clist([carr(tw[n]) for n in range(len(nodes))])} {cnl(inp['reads'])} {couts})"
     tally("graph-machine reads", len(inp["reads"]))
     res = {"coq": coq, "out": {"reads": inp["reads"], "filled": [f for _, f, _ in out][-1:], "changed": [c for _, _, c in out if c]},
            "py_ok": False if ch else None, "nontrivial": len(inp["reads"]) >= 2, "kind": "gcase:" + GINST[inst] + (":voronoi" if inst == 1 else "")}
-    if ch: res["detail"] = "caller-owned input changed: " + ",".join(ch[:4])
+    if ch: res["detail"] = "; ".join(ch[:4])
     return res
 def gen_gcase(rng, inst):
     nodes = GNODES[GINST[inst]]
@@ -1531,6 +1642,8 @@ def gen_gcase(rng, inst):
         ok = [n for n in range(len(nodes)) if not (inst == 0 and n == 7)]      # Mesh2DDelaunay has no areas_for_magnification
     elif inst in (2, 5):
         cfg = rand_cfg(rng); cfg.update(preloads=[], funcs=[], mappers=[[3, 3, rng.choice([1.0, 2.0])]], w_tilde=(inst == 5), positive=False)
+        if rng.random() < 0.5: cfg = posall(cfg, rng)      # the positive-only solver from an all-passive warm start: same graph
+        elif rng.random() < 0.4: cfg.update(positive=True, force_edge=False)
         ok = list(range(len(nodes)))
     elif inst == 3:
         cfg = rand_cfg(rng); H, W = cfg["shape"]; cfg["native"] = rng.random() < 0.5
@@ -1556,6 +1669,7 @@ def run_seed(inp):
     img = np.array(inp["image"], dtype=float).reshape(H, W)
     outs = []
     bad = []
+    sfp = singletons_fp()
     for st in inp["states"]:
         np.random.seed(st)
         for _ in range(st % 7): np.random.random()
@@ -1586,15 +1700,275 @@ def run_seed(inp):
             outs.append(bits(preprocess.gaussian_noise_via_shape_and_sigma_from(shape=(H * W,), sigma=2.0, seed=inp["seed"])))
         ch = leaves_changed(fp, leaves(owned))
         if ch: bad.append("caller-owned input changed: " + ",".join(ch[:4]))
+    sc = singletons_changed(sfp)
+    if sc: bad.append("default-argument singleton changed: " + ",".join(sc[:4]))
     coq = f"(KSeed {cz(inp['seed'])} {clist([carr(o) for o in outs])})"
     res = {"coq": coq, "out": [zlib.crc32(str(o).encode()) for o in outs], "py_ok": False if bad else None, "nontrivial": True,
            "kind": "seed:" + inp["via"] + (":unseeded" if inp["seed"] == -1 else "")}
     if bad: res["detail"] = "; ".join(bad[:3])
     return res
 
+# ----------------------------------------------------------------------------- util functions called with caller-owned arrays
+def util_args(inp):
+    """the caller's arrays of one util call, built from the integer spec (exact in double precision)"""
+    n = inp["n"]; dt = {"float64": np.float64, "int64": np.int64, "float32": np.float32}[inp["dtype"]]
+    M = np.array(inp["M"], dtype=np.int64).reshape(n, n)
+    FR = M.T @ M + inp["c"] * np.eye(n, dtype=np.int64)                  # symmetric positive definite, integer entries
+    sv = np.array(inp["s"], dtype=np.int64)
+    mk = lambda a: np.array(a, dtype=dt, order=inp["order"])
+    f = inp["fn"]
+    if f in ("positive_only", "positive_negative", "fnnls"):
+        a = {"data_vector": mk(FR @ sv), "curvature_reg_matrix": mk(FR)}
+        if f == "fnnls" and inp.get("p_initial"): a["P_initial"] = np.array(sv > 0)
+        return a
+    m = inp["m"]
+    B = np.array(inp["B"], dtype=np.int64).reshape(m, n)
+    if f == "mirrored": return {"curvature_matrix": mk(np.triu(FR))}
+    if f == "curvature": return {"mapping_matrix": mk(B), "noise_map": mk(inp["noise"])}
+    if f == "mapped_recon": return {"mapping_matrix": mk(B), "reconstruction": mk(sv)}
+    if f == "data_vector": return {"blurred_mapping_matrix": mk(B), "image": mk(inp["image"]), "noise_map": mk(inp["noise"])}
+    nb = np.array([[(i - 1) % n, (i + 1) % n] for i in range(n)], dtype=np.int64, order=inp["order"])      # a ring of pixels
+    if f == "reg_constant": return {"neighbors": nb, "neighbors_sizes": np.full(n, 2, dtype=np.int64)}
+    if f == "reg_weighted": return {"regularization_weights": mk(np.abs(sv) + 1), "neighbors": nb, "neighbors_sizes": np.full(n, 2, dtype=np.int64)}
+    if f == "reg_weights": return {"pixel_signals": mk(np.abs(sv) % 2)}
+    raise ValueError(f)
+def util_call(inp, a, settings):
+    aa = import_aa()
+    from autoarray.inversion.inversion import inversion_util
+    from autoarray.inversion.inversion.imaging import inversion_imaging_util
+    from autoarray.inversion.regularization import regularization_util
+    from autoarray.util import fnnls
+    f = inp["fn"]
+    try:
+        if f == "positive_only":
+            kw = {} if settings is None else {"settings": settings}       # omitted: the signature's default SettingsInversion()
+            r = inversion_util.reconstruction_positive_only_from(data_vector=a["data_vector"], curvature_reg_matrix=a["curvature_reg_matrix"], **kw)
+        elif f == "positive_negative":
+            r = inversion_util.reconstruction_positive_negative_from(data_vector=a["data_vector"], curvature_reg_matrix=a["curvature_reg_matrix"],
+                                                                      mapper_param_range_list=[[0, inp["n"]]])
+        elif f == "fnnls":
+            kw = {"P_initial": a["P_initial"]} if "P_initial" in a else {}
+            r = fnnls.fnnls_cholesky(a["curvature_reg_matrix"], a["data_vector"], **kw)
+        elif f == "mirrored": r = inversion_util.curvature_matrix_mirrored_from(curvature_matrix=a["curvature_matrix"])
+        elif f == "curvature": r = inversion_util.curvature_matrix_via_mapping_matrix_from(mapping_matrix=a["mapping_matrix"], noise_map=a["noise_map"])
+        elif f == "mapped_recon":
+            r = inversion_util.mapped_reconstructed_data_via_mapping_matrix_from(mapping_matrix=a["mapping_matrix"], reconstruction=a["reconstruction"])
+        elif f == "data_vector":
+            r = inversion_imaging_util.data_vector_via_blurred_mapping_matrix_from(blurred_mapping_matrix=a["blurred_mapping_matrix"], image=a["image"],
+                                                                                   noise_map=a["noise_map"])
+        elif f == "reg_constant": r = regularization_util.constant_regularization_matrix_from(coefficient=2.0, **a)
+        elif f == "reg_weighted": r = regularization_util.weighted_regularization_matrix_from(**a)
+        elif f == "reg_weights": r = regularization_util.adaptive_regularization_weights_from(inner_coefficient=2.0, outer_coefficient=0.5, **a)
+        else: raise ValueError(f)
+        return np.array(r, dtype=float)
+    except Exception as e:   # noqa
+        if isinstance(e, ValueError) and str(e) == f: raise
+        return type(e).__name__
+def run_util(inp):
+    """a util function (the solvers first) called DIRECTLY with arrays the caller owns and uses again: the arrays must hold the same
+    bytes afterwards, a second call with the very same objects and a call with private copies taken beforehand must give the same
+    bits; integer-typed inputs must give the result of the same values typed float64"""
+    aa = import_aa()
+    a = util_args(inp)
+    priv = {k: np.array(v, order="K") for k, v in a.items()}
+    settings = None
+    if inp["fn"] == "positive_only" and inp.get("settings") != "omitted":
+        settings = aa.SettingsInversion(use_positive_only_solver=True, positive_only_uses_p_initial=bool(inp.get("p_initial")))
+    w = Watch([types.SimpleNamespace(**a), settings])
+    bad = []
+    r1 = util_call(inp, a, settings)
+    ch = w.bad()
+    r2 = util_call(inp, a, settings)
+    r3 = util_call(inp, priv, None if settings is None else aa.SettingsInversion(use_positive_only_solver=True,
+                                                                                 positive_only_uses_p_initial=bool(inp.get("p_initial"))))
+    enc = lambda r: r if isinstance(r, str) else bits(r)
+    if ch: bad.append("after the first call: " + "; ".join(ch))
+    if enc(r1) != enc(r2): bad.append("a second call with the same argument objects gives another result")
+    if enc(r1) != enc(r3): bad.append("the result differs from the one computed on private copies of the arguments")
+    bad += [x for x in w.bad() if x not in ch]
+    if inp["dtype"] == "int64" and not isinstance(r3, str):
+        rf = util_call(dict(inp, dtype="float64"), util_args(dict(inp, dtype="float64")), settings)
+        if isinstance(rf, str) or rf.shape != r3.shape or not np.allclose(r3, rf, rtol=1e-9, atol=1e-12):
+            bad.append("integer-typed arguments give another result than the same values typed float64")
+    allpos = inp["fn"] in ("positive_only", "fnnls") and bool(inp.get("p_initial")) and all(x > 0 for x in inp["s"])
+    tally("util calls", 1); tally("util solver calls whose warm start has every parameter passive", int(allpos))
+    tally("util calls raising (canonical exception)", int(isinstance(r1, str)))
+    res = {"coq": None, "out": {"result": enc(r1), "bad": bad[:4]}, "py_ok": not bad, "nontrivial": True,
+           "kind": "util:" + inp["fn"] + ":" + inp["dtype"] + ":" + inp["order"] + (":warm-all-passive" if allpos else "")}
+    if bad: res["detail"] = "; ".join(bad[:4])
+    return res
+UTIL_FNS = ["positive_only", "positive_only", "positive_only", "fnnls", "fnnls", "positive_negative", "mirrored", "curvature", "mapped_recon",
+            "data_vector", "reg_constant", "reg_weighted", "reg_weights"]
+def gen_util(rng, k):
+    f = UTIL_FNS[k % len(UTIL_FNS)]
+    n = rng.randint(1, 5); m = rng.randint(1, 6)
+    cls = rng.choice(["pos", "pos", "mixed", "zero"])            # the sign pattern of the unconstrained solution
+    sv = [rng.randint(1, 6) for _ in range(n)]
+    if cls == "mixed": sv = [x * rng.choice([1, 1, -1]) for x in sv]
+    if cls == "zero": sv = [x * rng.choice([1, 0]) for x in sv]
+    return {"op": "util", "fn": f, "n": n, "m": m, "M": [rng.randint(-2, 3) for _ in range(n * n)], "c": rng.randint(1, 3), "s": sv,
+            "B": [rng.randint(0, 3) for _ in range(m * n)], "noise": [rng.choice([1, 2, 4]) for _ in range(m)],
+            "image": [rng.randint(0, 9) for _ in range(m)], "order": rng.choice(["C", "C", "F"]),
+            "dtype": rng.choice(["float64", "float64", "float64", "int64", "float32"]),
+            "p_initial": rng.random() < 0.75, "settings": rng.choice(["own", "own", "omitted"])}
+
+# ----------------------------------------------------------------------------- PART E: argument objects shared between calls (KShare)
+OS_FIELDS = ("uniform", "non_uniform", "pixelization")
+def os_record(o):
+    """an OverSamplingDataset as a record of sub-sizes (0 = None)"""
+    out = []
+    for f in OS_FIELDS:
+        x = getattr(o, f)
+        out.append(0 if x is None else int(x.sub_size))
+    return out
+def mk_os(spec):
+    aa = import_aa()
+    return aa.OverSamplingDataset(**{f: (aa.OverSamplingUniform(sub_size=k) if k else None) for f, k in zip(OS_FIELDS, spec)})
+def share_defaults():
+    """the default instances of the four signatures, in the order of Model/C11s.v: 2 cls = constructor, 2 cls + 1 = apply_over_sampling"""
+    aa = import_aa()
+    pick = lambda f: [d for d in f.__defaults__ if type(d).__name__ == "OverSamplingDataset"][0]
+    return [pick(aa.Imaging.__init__), pick(aa.Imaging.apply_over_sampling), pick(aa.Interferometer.__init__), pick(aa.Interferometer.apply_over_sampling)]
+def share_base(inp, b, over_sampling, omitted):
+    """base dataset b (Imaging unmasked / Interferometer) holding the given OverSamplingDataset object, or built with the argument omitted"""
+    aa = import_aa()
+    d = inp["bases"][b]; H, W = inp["shape"]
+    kw = {} if omitted else {"over_sampling": over_sampling}
+    if d["cls"] == 0:
+        mask = aa.Mask2D(mask=np.zeros((H, W), bool), pixel_scales=1.0)
+        data = aa.Array2D(values=np.array(d["data"], dtype=float).reshape(H, W), mask=mask)
+        noise = aa.Array2D(values=np.full((H, W), 2.0), mask=mask)
+        psf = aa.Kernel2D.no_mask(values=np.array(PSF), pixel_scales=1.0)
+        return aa.Imaging(data=data, noise_map=noise, psf=psf, **kw), [mask, data, noise, psf]
+    m = np.ones((H, W), bool); m[1:H - 1, 1:W - 1] = False
+    mask = aa.Mask2D(mask=m, pixel_scales=1.0)
+    vis = aa.Visibilities(visibilities=np.array([1 + 1j, 2 + 0j, 3 - 1j]) * (1 + d["data"][0]))
+    nm = aa.VisibilitiesNoiseMap(visibilities=np.array([1 + 1j, 1 + 1j, 1 + 1j]))
+    uv = np.array([[1.0, 2.0], [3.0, -1.0], [0.0, 0.0]])
+    return aa.Interferometer(data=vis, noise_map=nm, uv_wavelengths=uv, real_space_mask=mask, transformer_class=aa.TransformerDFT, **kw), [mask, vis, nm, uv]
+def share_keep(ds, how, mask2):
+    if how == "mask": return ds.apply_mask(mask=mask2)
+    if how == "noise_scaling": return ds.apply_noise_scaling(mask=mask2, noise_value=64.0)
+    raise ValueError(how)
+def share_view(ds):
+    """everything a derived dataset reports that depends on its over-sampling, and its data"""
+    out = os_record(ds.over_sampling) + [NAN + 10]
+    try: out += view_grids(ds.grids)
+    except Exception as e: out += exc_code(e)       # noqa
+    return digest(out + enc_val(ds.data) + enc_val(ds.noise_map))
+def run_share(inp):
+    """a history of OverSamplingDataset objects handed to dataset constructors and to apply_over_sampling -- explicitly, the SAME
+    object to several calls, partially specified, or omitted (the signature's default instance) -- and of derivations that keep the
+    over-sampling (apply_mask, apply_noise_scaling), on several datasets.  Coq (KShare): the record every step returns and the names
+    (default instances, arguments, datasets) whose record changed, against the machine of Model/C11s.v and the value semantics.
+    Python: every dataset, when it is made (unless lazy) and again at the end, reports what a history-free twin reports (the same
+    chain of derivations replayed alone with freshly built arguments: grids with their sub-sizes, data, noise map)."""
+    aa = import_aa()
+    H, W = inp["shape"]
+    defaults = share_defaults()
+    args, dss, recipe, owned = [], [], [], []
+    m2 = np.array(inp["mask2"], dtype=bool); mask2 = aa.Mask2D(mask=m2, pixel_scales=1.0); owned += [m2, mask2]
+    w = Watch(owned)
+    argspec = []
+    def names():
+        return [(k, os_record(d)) for k, d in enumerate(defaults)] + [(4 + 2 * i, os_record(a)) for i, a in enumerate(args)] \
+            + [(5 + 2 * d, os_record(x.over_sampling)) for d, x in enumerate(dss)]
+    def twin(d):
+        r = recipe[d]
+        if r[0] == "base":
+            spec = argspec[r[2]] if r[2] is not None else [0, 0, 0]
+            return share_base(inp, r[1], mk_os(spec), False)[0]
+        if r[0] == "apply": return twin(r[1]).apply_over_sampling(over_sampling=mk_os(argspec[r[2]] if r[2] is not None else [0, 0, 0]))
+        return share_keep(twin(r[1]), r[2], aa.Mask2D(mask=m2.copy(), pixel_scales=1.0))
+    out, ops, bad = [], [], []
+    copt = lambda a: "None" if a is None else f"(Some {cnat(a)})"
+    for st in inp["steps"]:
+        before = names()
+        o = st["o"]; made = None
+        try:
+            if o == "arg":
+                args.append(mk_os(st["r"])); argspec.append(list(st["r"])); owned.append(args[-1])
+                ops.append(f"(HArg {carr(st['r'])})"); obs = ("ok", os_record(args[-1]))
+            elif o == "ds":
+                a = st["a"]; b = st["b"]; cls = inp["bases"][b]["cls"]
+                ds, own = share_base(inp, b, None if a is None else args[a], a is None); owned += own
+                dss.append(ds); recipe.append(("base", b, a)); made = len(dss) - 1
+                ops.append(f"(HDs {cnat(cls)} {copt(a)})"); obs = ("ok", os_record(ds.over_sampling))
+            elif o == "apply":
+                a = st["a"]; src = dss[st["d"]]
+                ds = src.apply_over_sampling() if a is None else src.apply_over_sampling(over_sampling=args[a])
+                dss.append(ds); recipe.append(("apply", st["d"], a)); made = len(dss) - 1
+                ops.append(f"(HApply {cnat(st['d'])} {copt(a)})"); obs = ("ok", os_record(ds.over_sampling))
+            elif o == "keep":
+                ds = share_keep(dss[st["d"]], st["how"], mask2)
+                dss.append(ds); recipe.append(("keep", st["d"], st["how"])); made = len(dss) - 1
+                ops.append(f"(HKeep {cnat(st['d'])})"); obs = ("ok", os_record(ds.over_sampling))
+            elif o == "peek_arg": ops.append(f"(HPeekArg {cnat(st['i'])})"); obs = ("ok", os_record(args[st["i"]]))
+            elif o == "peek_ds": ops.append(f"(HPeekDs {cnat(st['d'])})"); obs = ("ok", os_record(dss[st["d"]].over_sampling))
+            elif o == "peek_default": ops.append(f"(HPeekDefault {cnat(st['w'])})"); obs = ("ok", os_record(defaults[st["w"]]))
+            else: raise ValueError(o)
+        except ValueError: raise
+        after = dict(names())
+        ch = [(k, after[k]) for k, v in before if after[k] != v]
+        out.append((obs, ch))
+        if made is not None and not inp.get("lazy"):
+            if share_view(dss[made]) != share_view(twin(made)): bad.append(f"dataset {made} ({recipe[made][0]}) differs from its history-free twin")
+    for d in range(len(dss)):
+        if share_view(dss[d]) != share_view(twin(d)): bad.append(f"at the end dataset {d} ({recipe[d][0]}) differs from its history-free twin")
+    bad += w.bad()
+    couts = clist([f"({cobs(obs)}, {clist([f'({cnat(k)}, {carr(v)})' for k, v in ch])})" for obs, ch in out])
+    coq = f"(KShare {clist(ops)} {couts})"
+    shared = len([1 for s_ in inp["steps"] if s_["o"] == "apply" and s_["a"] is None]) >= 2 or \
+        any(sum(1 for s_ in inp["steps"] if s_["o"] in ("apply", "ds") and s_["a"] == i) >= 2 for i in range(len(args)))
+    tally("share histories", 1); tally("share histories in which one argument object / default instance serves two calls", int(shared))
+    res = {"coq": coq, "out": {"records": [o_[1] for o_, _ in out][-4:], "changed": [c for _, c in out if c], "bad": bad[:4]},
+           "py_ok": False if bad else None, "nontrivial": shared, "kind": "share:" + ("shared" if shared else "unshared") + (":lazy" if inp.get("lazy") else "")}
+    if bad: res["detail"] = "; ".join(bad[:4])
+    return res
+def gen_share(rng):
+    H, W = rng.randint(5, 6), rng.randint(5, 6)
+    mask2 = [[(y < 1 or y > H - 2 or x < 1 or x > W - 2) for x in range(W)] for y in range(H)]
+    rec = lambda p0: [0 if rng.random() < p0 else rng.choice([1, 2, 4]) for _ in range(3)]
+    steps = []; nargs = 0; dss = []      # dss: (cls, masked)
+    bases = []
+    def new_arg(r): nonlocal nargs; steps.append({"o": "arg", "r": r}); nargs += 1; return nargs - 1
+    def new_ds(cls, a):
+        bases.append({"cls": cls, "data": [rng.randint(0, 20) for _ in range(H * W)]})
+        steps.append({"o": "ds", "b": len(bases) - 1, "a": a}); dss.append((cls, cls == 1)); return len(dss) - 1
+    directed = rng.random() < 0.6
+    if directed:
+        # the state the independent campaign needed: two datasets with DIFFERENT own over-sampling, apply_over_sampling on both with
+        # ONE partially specified argument object or with the argument omitted
+        cls = rng.choice([0, 0, 0, 1])
+        own = [rec(0.2), rec(0.2)]
+        while own[0] == own[1]: own[1] = rec(0.2)
+        d0 = new_ds(cls, new_arg(own[0])); d1 = new_ds(cls, new_arg(own[1]))
+        a = None if rng.random() < 0.5 else new_arg(rec(0.6))
+        order = [d0, d1] if rng.random() < 0.7 else [d1, d0]
+        for d in order:
+            steps.append({"o": "apply", "d": d, "a": a}); dss.append(dss[d])
+            if rng.random() < 0.3: steps.append({"o": "peek_default", "w": 2 * cls + 1} if a is None else {"o": "peek_arg", "i": a})
+    else:
+        for _ in range(rng.randint(1, 2)): new_arg(rec(0.5))
+        for _ in range(rng.randint(2, 3)):
+            r = rng.random()
+            new_ds(rng.choice([0, 0, 0, 1]), None if r < 0.3 else (rng.randrange(nargs) if r < 0.5 else new_arg(rec(0.3))))
+    for _ in range(rng.randint(2, 6)):
+        r = rng.random(); d = rng.randrange(len(dss))
+        if r < 0.4:
+            a = rng.choice([None] + list(range(nargs)))
+            steps.append({"o": "apply", "d": d, "a": a}); dss.append(dss[d])
+        elif r < 0.6 and dss[d][0] == 0:
+            how = "mask" if dss[d][1] or rng.random() < 0.6 else "noise_scaling"
+            steps.append({"o": "keep", "d": d, "how": how}); dss.append((0, dss[d][1] or how == "mask"))
+        elif r < 0.75: steps.append({"o": "peek_arg", "i": rng.randrange(nargs)} if nargs else {"o": "peek_default", "w": rng.randrange(4)})
+        elif r < 0.9: steps.append({"o": "peek_ds", "d": d})
+        else: steps.append({"o": "peek_default", "w": rng.randrange(4)})
+    return {"op": "share", "shape": [H, W], "mask2": mask2, "bases": bases, "steps": steps, "lazy": rng.random() < 0.3}
+
 def run_case(inp):
     r = run_case0(inp)
-    if r.get("coq") and not r["coq"].startswith("(KGraph"): r["coq"] = "(KA " + r["coq"] + ")"
+    if r.get("coq") and not r["coq"].startswith(("(KGraph", "(KShare")): r["coq"] = "(KA " + r["coq"] + ")"
     return r
 def run_case0(inp):
     op = inp["op"]
@@ -1608,6 +1982,8 @@ def run_case0(inp):
     if op == "edit": return run_edit(inp)
     if op == "fit": return run_fit(inp)
     if op == "gcase": return run_gcase(inp)
+    if op == "util": return run_util(inp)
+    if op == "share": return run_share(inp)
     raise ValueError(op)
 
 # ----------------------------------------------------------------------------- generators
@@ -1650,6 +2026,9 @@ def gen_history(rng, n_steps, flavour, allow_d8=False):
             else: shape = [count_false(mask) + (1 if wrong else 0)] + ([2] if per == 2 else [])
             if wrong and native: shape[0] += 1
             v = vals(int(np.prod(shape)))
+            # input KINDS: an integer-typed or Fortran-ordered array where a float64 C array is usual (same values; float32 is not
+            # used: a natively stored float32 array legitimately keeps its precision, so means differ from the float64 twin's)
+            if kind in ("array", "grid", "vector") and rng.random() < 0.25: dt = rng.choice(["int", "fortran"])
         g.steps.append({"o": "new", "kind": "nd", "shape": shape, "v": v, "dtype": dt})
         g.inputs.append({"kind": "nd", "for": kind, "mask": mask, "native": native, "shape": shape, "wrong": wrong})
         return len(g.inputs) - 1
@@ -1865,7 +2244,18 @@ def rand_cfg(rng):
             "w_tilde": rng.random() < 0.5, "positive": rng.random() < 0.3, "sub": rng.choice([1, 1, 2]),
             "preloads": sorted(rng.sample(sorted(PRELOADABLE), rng.choice([0, 0, 1, 2]))),
             "funcs": rand_funcs(rng, H * W - 2 * H - 2 * W + 4 - len(holes)), "force_edge": rng.random() < 0.7,
-            "edge_image": rng.random() < 0.15, "w_tilde_numpy": rng.random() < 0.2, "source_loop": rng.random() < 0.2}
+            "edge_image": rng.random() < 0.15, "w_tilde_numpy": rng.random() < 0.2, "source_loop": rng.random() < 0.2,
+            "p_initial": rng.choice([True, True, False])}
+def posall(cfg, rng):
+    """DIRECTED: the state in which the positive-only solver's warm start (positive_only_uses_p_initial=True, the production
+    default, pushed explicitly) puts EVERY parameter in the passive set: smooth strictly positive data, one noise level, every mapper
+    regularized, no forced zeros -- the unconstrained solution is strictly positive (counted at run time on a twin: see the tally
+    'warm start has every parameter passive').  Random data reach it in < 1% of the cases."""
+    H, W = cfg["shape"]; base = 4 * rng.randint(6, 14)
+    cfg.update(data=[base + rng.randint(0, 2) for _ in range(H * W)], noise=[rng.choice([1, 2])] * (H * W), positive=True, p_initial=True,
+               force_edge=False, edge_image=False, funcs=[])
+    cfg["mappers"] = [[m[0], m[1], m[2] if m[2] is not None else 1.0] for m in cfg["mappers"]]
+    return cfg
 def rand_funcs(rng, npix):
     """0-2 linear objects that are not mappers, before and / or after the mappers, unregularized most of the time"""
     out = []
@@ -1903,6 +2293,7 @@ def gen_inputs(tier, rng):
                                "w_tilde": True, "positive": False, "sub": 1, "preloads": []}, "pre": "PDiag", "qs": ["QF", "QPreDiag", "QFR", "QF", "QPreDiag"]}
     for k in range(300 if big else 26):
         cfg = rand_cfg(rng)
+        if k % 3 == 1: cfg = posall(cfg, rng)       # with whatever preloads rand_cfg chose (data_vector_mapper included)
         who = ["inv"] * 6 + ["mapper0", "mapper1", "ds", "grids", "mask"]
         reads = []
         for _ in range(rng.randint(3, 14)):
@@ -1911,6 +2302,14 @@ def gen_inputs(tier, rng):
         if k % 2 == 0:       # every quantity of the inversion after every other one
             reads = with_sweeps(rng, reads[:4], [["inv", q] for q in GRAPH_Q["inv"]] + [["mapper0", "mapping_matrix"], ["ds", "signal_to_noise_map"]])
         yield {"op": "graph", "cfg": cfg, "reads": reads}
+    # the D21 witness (w-tilde, a mapper and a linear function object, a preloaded mapper data vector: the function rows must not be
+    # written into the caller's array), in three variants
+    for k, (pre, pos) in enumerate(((["data_vector_mapper"], False), (["data_vector_mapper", "regularization_matrix"], False),
+                                    (["data_vector_mapper"], True))):
+        yield {"op": "graph", "cfg": {"shape": [5, 5 + k % 2], "holes": [], "data": list(range(25 + 5 * (k % 2))), "noise": [2] * (25 + 5 * (k % 2)),
+                                      "mappers": [[3, 3, 1.0]], "w_tilde": True, "positive": pos, "force_edge": False, "sub": 1, "preloads": pre,
+                                      "funcs": [{"pos": "after", "cols": [1] * (9 + 3 * (k % 2)), "coeff": None}]},
+               "reads": [["inv", "data_vector"], ["inv", "reconstruction"], ["inv", "data_vector"], ["inv", "mapped_reconstructed_data"]]}
     # the D20 witness: two mappers, w-tilde, a preloaded block-diagonal curvature matrix
     yield {"op": "graph", "cfg": {"shape": [5, 6], "holes": [[2, 2]], "data": list(range(30)), "noise": [2] * 30, "mappers": [[3, 3, 1.0], [2, 2, 1.0]],
                                   "w_tilde": True, "positive": False, "sub": 1, "preloads": ["curvature_matrix_mapper_diag"]},
@@ -1951,6 +2350,10 @@ def gen_inputs(tier, rng):
     for k in range(240 if big else 16): yield gen_fit(rng)
     # PART D: reads on the quantity graphs of Model/C11g.v (cache fills and changed entries are compared inside Coq)
     for k in range(300 if big else 36): yield gen_gcase(rng, k % 6)
+    # PART E: argument objects (OverSamplingDataset) shared between dataset constructors / apply_over_sampling calls / omitted
+    for k in range(400 if big else 40): yield gen_share(rng)
+    # util functions (solvers first) called directly with caller-owned arrays: C / Fortran order, float64 / int64 / float32
+    for k in range(520 if big else 52): yield gen_util(rng, k)
     for k in range(120 if big else 18):
         H, W = rng.randint(2, 4), rng.randint(2, 4)
         vias = ["simulator", "poisson", "gaussian", "interferometer"]
@@ -1967,6 +2370,9 @@ def extra_evidence():
     return {"distribution": dict(sorted(TALLY.items())),"modelled_operations": ["ONew", "OConstruct(Array2D|Grid2D|VectorYX2D|Kernel2D|Visibilities|Mask2D|MapperRectangular)", "OAlias(Imaging)",
                                     "OArith", "OSlice", "OCopy", "OTrim", "ORead(cached_property)", "OPlain", "OPeekIn", "OPeekObj",
                                     "OValued(MapperValued)", "OValuesMasked", "OMapRecon", "OInterf", "OImaging",
-                                    "OConstruct(.., Some q) = Kernel2D(normalize=True) / psf.normalized", "OConstruct(SObj) = x.native / x.slim"],
+                                    "OConstruct(.., Some q) = Kernel2D(normalize=True) / psf.normalized", "OConstruct(SObj) = x.native / x.slim",
+                                    "HArg(OverSamplingDataset)", "HDs(Imaging|Interferometer, argument|omitted)", "HApply(apply_over_sampling, argument|omitted)",
+                                    "HKeep(apply_mask|apply_noise_scaling)", "HPeekArg", "HPeekDs", "HPeekDefault"],
+            "default_argument_singletons": [n + ":" + type(o).__name__ for n, o in default_singletons()],
             "graphs": {str(k): {"name": v, "nodes": [f"{o}.{n}:{kd}" for o, n, kd in GNODES[v]]} for k, v in GINST.items()},
             "quantities": {k: {"cached": sorted(v.cached), "plain": v.plain} for k, v in KINDS.items()}}
